@@ -122,6 +122,13 @@ def _make_items(vals, ids, fmt):
         back = {n: int(i) for n, i in zip(names, ids)}
         d = {n: v for n, v in zip(names, vals)}
         return d, None, lambda x, back=back: back[x]
+    if fmt == "dict_mixed":
+        # keys of DIFFERENT types in one dict (str, int, tuple, float): they cannot be compared with each other
+        def nm(j, i):
+            return [name_str(i), int(i), (int(i), "t"), int(i) + 0.5][j % 4]
+        names = [nm(j, i) for j, i in enumerate(ids)]
+        back = {n: int(i) for n, i in zip(names, ids)}
+        return {n: v for n, v in zip(names, vals)}, None, lambda x, back=back: back[x]
     if fmt == "names_valueof":
         d = _register("valueof-dict", {name_str(i): v for i, v in zip(ids, vals)})
         return [name_str(i) for i in ids], (lambda x, d=d: d[x]), lambda x: int(x[1:])
@@ -489,9 +496,18 @@ def p_objective_history(a):
     """ONE objective object evaluated on a sequence of sum vectors (of varying lengths): an objective must not remember anything"""
     o = objective(a["o"], a.get("ok", 0))
     out = []
+    buf = None      # with "inplace": ONE mutable vector object (list or array), updated in place between the evaluations
     for sums, srt, kind in a["seq"]:
         try:
-            out.append(_int(o.value_to_minimize(seq_of(sums, kind), are_sums_in_ascending_order=bool(srt))))
+            if a.get("inplace") and kind in ("list", "array"):
+                if buf is None or len(buf) != len(sums) or (kind == "array") != isinstance(buf, np.ndarray):
+                    buf = seq_of(sums, kind)
+                else:
+                    buf[:] = sums
+                vec = buf
+            else:
+                vec = seq_of(sums, kind)
+            out.append(_int(o.value_to_minimize(vec, are_sums_in_ascending_order=bool(srt))))
         except Exception as e:      # noqa
             out.append("exc:" + type(e).__name__)
     return {"values": out}
@@ -671,10 +687,20 @@ def p_binner_ops(a):
     """executes a sequence of bins-manager operations on the real managers; after every
     operation reports what every handle ever created shows"""
     ops = a["ops"]
+    # the item objects handed to the managers: plain integers, or (with "names") equal-length tuples / strings standing for them
+    style = a.get("names", "int")
+    enc = {"int": (lambda i: i), "tuple": (lambda i: (i, 0)), "str": (lambda i: name_str(i))}[style]
+    def dec(x):
+        # the recorded item must be the very kind of object that was handed over
+        if style == "tuple":
+            return int(x[0]) if isinstance(x, tuple) and len(x) == 2 and x[1] == 0 else "corrupt:" + repr(x)
+        if style == "str":
+            return int(x[1:]) if isinstance(x, str) else "corrupt:" + repr(x)
+        return int(x) if isinstance(x, (int, np.integer)) and not isinstance(x, bool) else "corrupt:" + repr(x)
     vm = {}
     for o in ops:
         if o[0] == 1:
-            vm[o[2]] = o[3]
+            vm[enc(o[2])] = o[3]
     valueof = lambda x: vm[x]
     bs = {True: prtpy.BinnerKeepingContents(valueof), False: prtpy.BinnerKeepingSums(valueof)}
     handles = []     # (keep, binsarray)
@@ -682,7 +708,7 @@ def p_binner_ops(a):
     def show(h):
         keep, b = h
         if keep:
-            return [[_int(s), [int(x) for x in l]] for s, l in zip(list(b[0]), list(b[1]))]
+            return [[_int(s), [dec(x) for x in l]] for s, l in zip(list(b[0]), list(b[1]))]
         return [[_int(s), []] for s in list(b)]
 
     obs = []
@@ -693,7 +719,7 @@ def p_binner_ops(a):
             handles.append((keep, bs[keep].new_bins(o[2])))
         elif t == 1:
             keep, b = handles[o[1]]
-            bs[keep].add_item_to_bin(b, o[2], o[4])
+            bs[keep].add_item_to_bin(b, enc(o[2]), o[4])
         elif t == 2:
             keep, b = handles[o[1]]
             handles.append((keep, bs[keep].copy_bins(b)))
